@@ -273,6 +273,268 @@ def run_tasks(tasks, budget_s=None, nproc=None):
     return merged, sorted(timings)
 
 
+# -- schedules of first use ------------------------------------------------
+
+def first_use_race(col, sub, module_names, make_jobs, trials, nthreads=8):
+    """The first use of a module in a process, by several threads at once.
+
+    Each trial re-imports the named modules (importlib.reload), so whatever
+    they build lazily - pattern tables, grammars, multiplier tables - is
+    built again, then releases `nthreads` threads through a barrier; thread i
+    runs jobs[i](), an ordinary oracle check that raises Violation.  The
+    interpreter's switch interval is lowered so the threads interleave.
+    make_jobs(trial) -> list of (label, sample, callable)."""
+    import importlib
+    import threading
+    mods = [importlib.import_module(m) for m in module_names]
+    saved = sys.getswitchinterval()
+    sys.setswitchinterval(1e-6)
+    try:
+        for t in range(trials):
+            for m in mods:
+                importlib.reload(m)
+            jobs = make_jobs(t)[:nthreads]
+            barrier = threading.Barrier(len(jobs))
+            out = [None] * len(jobs)
+
+            def work(i):
+                barrier.wait()
+                try:
+                    jobs[i][2]()
+                except Violation as v:
+                    out[i] = v
+                except BaseException:
+                    out[i] = traceback.format_exc()
+
+            ths = [threading.Thread(target=work, args=(i,))
+                   for i in range(len(jobs))]
+            for th in ths:
+                th.start()
+            for th in ths:
+                th.join()
+            for i, r in enumerate(out):
+                col.case(sub, (t, i, jobs[i][0]), True, 'first-use',
+                         jobs[i][1])
+                if isinstance(r, Violation):
+                    if isinstance(r.case, dict):
+                        r.case = dict(r.case, first_use_threads=len(jobs),
+                                      trial=t)
+                    r.sub = sub
+                    raise r
+                if r is not None:
+                    raise HarnessError('first-use thread %d: %s' % (i, r))
+    finally:
+        sys.setswitchinterval(saved)
+        for m in mods:
+            importlib.reload(m)
+    col.exhaustive.setdefault(sub, False)
+
+
+def preemption_sweep(col, sub, module_names, first, second, label,
+                     max_points=600, sample=None, before_each=None,
+                     max_seconds=None):
+    """Schedules owned by the harness: every single preemption of a first
+    call by a second one, at line granularity.
+
+    For k = 1, 2, ...: the named modules are re-imported (so lazily built
+    state is built again), thread A runs first() under a line tracer and is
+    suspended just before the k-th line it executes inside those modules'
+    source files; the calling thread then runs second() to completion and
+    lets A finish.  first/second are oracle checks raising Violation.  The
+    sweep ends when A finishes before reaching line k.  This explores the
+    schedules a lucky thread switch would produce, deterministically."""
+    import importlib
+    import threading
+    mods = [importlib.import_module(m) for m in module_names]
+    files = set()
+    for m in mods:
+        f = getattr(m, '__file__', None)
+        if f:
+            files.add(f)
+    explored = 0
+    t_end = None if max_seconds is None else time.monotonic() + max_seconds
+    try:
+        k = 0
+        while k < max_points:
+            if t_end is not None and time.monotonic() > t_end:
+                break           # bounded exploration, not a verdict
+            k += 1
+            for m in mods:
+                importlib.reload(m)
+            if before_each is not None:
+                before_each()
+            paused = threading.Event()
+            resume = threading.Event()
+            state = {'n': 0, 'hit': False}
+            res_a = []
+
+            def tracer(frame, event, arg):
+                if frame.f_code.co_filename not in files:
+                    return None
+                if frame.f_code.co_name == '<module>':
+                    return None     # a (re-)import is not a call to preempt
+                if event == 'line':
+                    state['n'] += 1
+                    if state['n'] == k:
+                        state['hit'] = True
+                        paused.set()
+                        resume.wait(30)
+                return tracer
+
+            def run_a():
+                sys.settrace(tracer)
+                try:
+                    first()
+                except Violation as v:
+                    res_a.append(v)
+                except BaseException:
+                    res_a.append(traceback.format_exc())
+                finally:
+                    sys.settrace(None)
+                    paused.set()
+
+            th = threading.Thread(target=run_a)
+            th.start()
+            if not paused.wait(30):
+                resume.set()
+                raise HarnessError('preemption sweep: first call hung')
+            res_b = None
+            if state['hit']:
+                try:
+                    second()
+                except Violation as v:
+                    res_b = v
+                except BaseException:
+                    res_b = traceback.format_exc()
+            resume.set()
+            th.join(30)
+            if th.is_alive():
+                raise HarnessError('preemption sweep: first call did not '
+                                   'finish after the second one')
+            if not state['hit']:
+                break
+            explored += 1
+            for who, r in (('second', res_b), ('first', res_a[0] if res_a
+                                                 else None)):
+                if isinstance(r, Violation):
+                    if isinstance(r.case, dict):
+                        r.case = dict(r.case, preempt_at_line_event=k,
+                                      preempt=label, failing_call=who)
+                    r.sub = sub
+                    r.msg = ('%s call, with the first call suspended before '
+                             'its line event %d: %s' % (who, k, r.msg))
+                    raise r
+                if r is not None:
+                    raise HarnessError('preemption sweep (%s call): %s'
+                                       % (who, r))
+    finally:
+        for m in mods:
+            importlib.reload(m)
+    col.case(sub, ('preempt', label), True, 'preemption-points',
+             dict(sample or {}, preempt=label, points=explored))
+    col.count(sub, max(0, explored - 1), 'preemption-points')
+    col.distinct_extra += max(0, explored - 1)
+    return explored
+
+
+def preempt_pair(col, prop, module_names, rec_a, rec_b):
+    """One preemption sweep built from two cases the run has already judged
+    (taken from the collector's samples): case A's check is suspended at
+    every line of the code under test in turn while case B's check runs.
+    The single-case oracle is the property module's replay()."""
+    import importlib
+    mod = importlib.import_module('vcheck.props.%s' % prop.lower())
+    sub = 'preempt'
+    # both cases must hold on their own; a sample that is only a summary of
+    # its case (or that the module cannot replay) is not used
+    for rec in (rec_a, rec_b):
+        try:
+            mod.replay(rec)
+        except BaseException:
+            col.count(sub, 1, 'sample-not-replayable')
+            return
+    label = '%s | %s' % (rec_a.get('sub'), rec_b.get('sub'))
+    try:
+        preemption_sweep(col, sub, module_names,
+                         lambda: mod.replay(rec_a), lambda: mod.replay(rec_b),
+                         label, max_points=150, max_seconds=5,
+                         sample={'first': rec_a, 'second': rec_b})
+    except Violation as v:
+        # keep the failing case replayable on its own and record the pair,
+        # so that --replay can re-create the schedule
+        who = v.case.get('failing_call') if isinstance(v.case, dict) else None
+        rec = rec_a if who == 'first' else rec_b
+        case = rec['case']
+        if isinstance(case, dict):
+            case = dict(case, preempt_pair=[rec_a, rec_b],
+                        preempt_at_line_event=v.case.get(
+                            'preempt_at_line_event')
+                        if isinstance(v.case, dict) else None)
+        raise Violation(rec.get('sub') or sub, v.msg, case)
+
+
+def preempt_calls(col, sub, module_names, calls, before_each=None):
+    """Preemption sweeps over a ring of plain calls with literal expected
+    outcomes: calls = [(label, thunk, ('value', v) | ('raise', 'Class'))].
+    Call i is suspended at every line while call i+1 runs."""
+    def mk(c):
+        def run():
+            try:
+                got = ('value', c[1]())
+            except Exception as e:
+                got = ('raise', type(e).__name__)
+            if got != c[2]:
+                raise Violation(sub, '%s: %r, expected %r' % (c[0], got, c[2]),
+                                {'call': c[0], 'preempt_calls': True})
+        return run
+    total = 0
+    for i in range(len(calls)):
+        a, b = calls[i], calls[(i + 1) % len(calls)]
+        total += preemption_sweep(col, sub, module_names, mk(a), mk(b),
+                                  '%s | %s' % (a[0], b[0]),
+                                  before_each=before_each)
+    return total
+
+
+def preempt_tasks(col, prop, module_names, seed, pairs):
+    """Pick `pairs` pairs of sampled cases (round-robin over sub-checks,
+    order fixed by the seed) and return one Task per pair."""
+    by_sub = {}
+    for label in sorted(col.samples):
+        sub = label.split(':', 1)[0]
+        if sub in ('python-O', 'preempt'):
+            continue
+        for smp in col.samples[label]:
+            if isinstance(smp, dict) and not (set(smp) & {
+                    'python_flags', 'threads', 'first_use_threads', 'trial',
+                    'preempt', 'preempt_calls', 'preempt_pair', 'interface',
+                    'concurrent', 'concurrent_ensure'}):
+                by_sub.setdefault(sub, []).append(smp)
+    order = []
+    subs = sorted(by_sub)
+    i = 0
+    while subs and len(order) < 4 * pairs:
+        progressed = False
+        for sname in subs:
+            lst = by_sub[sname]
+            if i < len(lst):
+                order.append((sname, lst[i]))
+                progressed = True
+        if not progressed:
+            break
+        i += 1
+    order.sort(key=lambda x: h64((seed, x[0], json.dumps(x[1], sort_keys=True,
+                                                           default=repr))))
+    out = []
+    for j in range(0, min(len(order) - 1, 2 * pairs), 2):
+        (sa, ca), (sb, cb) = order[j], order[j + 1]
+        out.append(Task('preempt', preempt_pair, prop=prop,
+                        module_names=list(module_names),
+                        rec_a={'sub': sa, 'case': ca, 'property': prop},
+                        rec_b={'sub': sb, 'case': cb, 'property': prop}))
+    return out
+
+
 # -- ambient interpreter configuration -----------------------------------
 
 def optimized_child(col, prop, subs):
